@@ -13,7 +13,8 @@ EXPLANATION = (
     "a clash (DuplicateDeclarationLabel), assigns a fresh resolution id and pushes into the innermost scope; R4 the Goto "
     "and Label arms rebuild their node only on the Ok edge and poison on the Err edge; R5 codes 400/420; R6 the generator "
     "maps Goto and Label to basic blocks through find_or_append_labeled_block keyed by the label's resolution id; R7 the "
-    "label pass runs before the variable pass. Acceptance for all label/goto arrangements is not decided.")
+    "label pass runs before the variable pass. Acceptance for all label/goto arrangements is not decided."
+    " ADDED LATER: R8 the label pass visits every statement (T2); R3 also checks on the MIR that the scope search goes on after a miss.")
 
 LR = "alpha::scoper::label_references::"
 AN = LR + "Analyzer::"
